@@ -64,7 +64,8 @@ func c15Create(r *Run) {
 			case 0:
 				kinds[j] = "anonymous"
 			case 1:
-				kinds[j], ms[j].ID = "named", fmt.Sprintf("nm%d", j)
+				// plain names, and names that contain something shaped like a UUID
+				kinds[j], ms[j].ID = "named", []string{fmt.Sprintf("nm%d", j), fmt.Sprintf("port-%s", mkUUID(40+j)), mkUUID(50+j) + "-a", fmt.Sprintf("x%sy", mkUUID(60+j))}[rng.Intn(4)]
 			default:
 				kinds[j], ms[j].ID = "explicit", mkUUID(100000+serial)
 			}
